@@ -7,6 +7,7 @@ pub mod c14;
 pub mod gad;
 #[path = "../../scheme/src/sch.rs"]
 pub mod sch;
+pub mod c12b;
 pub mod c15;
 pub mod c20;
 
@@ -23,6 +24,7 @@ fn main() {
         let (prop, sub, case) = read_replay(&args[1]);
         let ctx = Ctx::from_args(&prop, &[]);
         let code = match prop.as_str() {
+            "C12" => c12b::replay(&ctx, &sub, &case),
             "C13" => c13::replay(&ctx, &sub, &case),
             "C14" => c14::replay(&ctx, &sub, &case),
             "C15" => c15::replay(&ctx, &sub, &case),
@@ -37,6 +39,10 @@ fn main() {
     let prop = args[0].clone();
     let ctx = Ctx::from_args(&prop, &args[1..]);
     let code = match prop.as_str() {
+        "C12" => {
+            c12b::run_all(&ctx);
+            ctx.finish(c12b::RULE, &["blind rotation, circuit bootstrapping and the key encryption / preparation routines are reached through fhe_uint_prepare and TestContext only; their own size queries are not audited separately"], &[("multi_thread", 20), ("fhe_uint_prepare", 4)])
+        }
         "C13" => {
             c13::run(&ctx);
             ctx.finish(c13::RULE, c13::ASSUMPTIONS, &[("edge_directed", 100), ("exhaustive_low_bytes", 1)])
